@@ -179,7 +179,9 @@ def directed_igmp_groups(rng, kind):
     msg = bytes([0x22, 0, 0, 0, 0, 0]) + cnt.to_bytes(2, "big")
     for g in groups:
         msg += bytes([mode, 0, 0, 0]) + g.to_bytes(4, "big")
-    which = rng.choice([2, 4]) if not kind.startswith("run_") else 4      # high word is at len-4, low word at len-2
+    # high word is at len-4, low word at len-2.  For the running-sum kinds the LAST word matters most: an
+    # end-around-carry slip on an intermediate sum of exactly 0x10000 corrects itself on the next addition.
+    which = rng.choice([2, 4]) if not kind.startswith("run_") else rng.choice([2, 2, 4])
     off = len(msg) - which
     msg = msg[:off] + b"\0\0" + msg[off + 2:]
     v = solve_word(msg, off, kind)
@@ -1511,10 +1513,11 @@ def oracles_C16(ctx, hints):
             bad = True
     for _ in range(ctx.scale(40, 500)):
         cnt = rng.randrange(2, 6)
-        ids = [7] * cnt
+        base = rng.choice([0, 0, 1, 7, 0xFFFF, rng.getrandbits(16)])      # identification 0 is falsy in Python
+        ids = [base] * cnt
         foreign = None
-        if rng.random() < 0.5:
-            ids[rng.randrange(1, cnt)] = 8
+        if rng.random() < 0.6:
+            ids[rng.randrange(0, cnt)] = rng.choice([x for x in (0, 1, 8, base ^ 1, 0xFFFF) if x != base])
         else:
             foreign = rng.randrange(0, cnt + 1)
         args = {"ids": ids, "foreign": foreign}
